@@ -82,6 +82,46 @@ def pair_work(lo, hi, max_rows):
     return part.dump()
 
 
+# ------------------------------------------------------------------------------ data-map keys
+
+
+def map_pairs_work():
+    """all pairs of (dialect, sql, data map) over 1-2 table names x 3 frames x both dict insertion orders"""
+    import pandas
+    from data_algebra.eval_cache import make_cache_key
+
+    part = core.Part([])
+    F = {
+        "A": pandas.DataFrame({"x": [1, 2], "g": ["a", "b"]}),
+        "Acell": pandas.DataFrame({"x": [1, 3], "g": ["a", "b"]}),
+        "B": pandas.DataFrame({"w": [1.5]}),
+    }
+    maps = []  # (canonical content, dict in a particular insertion order)
+    for n in ("d", "e"):
+        for f in F:
+            maps.append((((n, f),), {n: F[f]}))
+    for fd in F:
+        for fe in F:
+            maps.append(((("d", fd), ("e", fe)), {"d": F[fd], "e": F[fe]}))
+            maps.append(((("d", fd), ("e", fe)), {"e": F[fe], "d": F[fd]}))
+    MODELS = models()
+    items = []
+    for m in MODELS:
+        for sname, sql in SQLS.items():
+            for canon, dm in maps:
+                key = make_cache_key(db_model=MODELS[m], sql=sql, data_map=dm)
+                items.append(((m, sname, canon), list(dm.keys()), key))
+    for i in range(len(items)):
+        for j in range(i + 1, len(items)):
+            (ci, oi, ki), (cj, oj, kj) = items[i], items[j]
+            part.count("map_pairs")
+            if ci != cj and ki == kj:
+                part.violation({"a": ci, "a_insertion_order": oi, "b": cj, "b_insertion_order": oj}, f"different (dialect, sql, data map) triples share a cache key: {ci} (inserted {oi}) vs {cj} (inserted {oj})")
+            if ci == cj and ki != kj:
+                part.count("equal_maps_in_other_insertion_order_get_other_key")
+    return part.dump()
+
+
 # ------------------------------------------------------------------------------ histories
 
 
@@ -97,6 +137,9 @@ def data_maps():
         "Aperm": {"d": A_perm},
         "Acell": {"d": A_cell},
         "A+B": {"d": A, "e": B},
+        # two tables bound the other way round, built in the other insertion order
+        "AC": {"d": A, "e": A_cell},
+        "CA": {"e": A, "d": A_cell},
     }
 
 
@@ -116,10 +159,10 @@ def models():
 SQLS = {"s1": "SELECT * FROM d", "s2": "SELECT * FROM d "}
 
 
-def events(dm_names):
+def events(dm_names, model_names=("sqlite", "pg"), sql_names=None):
     ev = []
-    for m in ("sqlite", "pg"):
-        for s in SQLS:
+    for m in model_names:
+        for s in (sql_names or SQLS):
             for d in dm_names:
                 ev.append(("get", m, s, d))
                 for r in ("R1", "R2"):
@@ -204,35 +247,45 @@ def run(tier):
     for p in core.pmap(pair_work, [(lo, min(nf, lo + step), max_rows) for lo in range(0, nf, step)]):
         run.merge(p)
     # ---- histories with state merging on the model state
-    dm_names = ["A", "Aperm", "Acell"]
+    run.merge(map_pairs_work())
     depth = 3 if tier == "quick" else 4
-    evs = events(dm_names)
-    seen = {((), False)}
-    frontier = [[]]
+    # two explorations: one-table maps under both dialects / SQL texts, and two-table maps bound
+    # both ways round (built in both insertion orders) under one dialect, one level deeper
+    plans = [
+        (["A", "Aperm", "Acell"], events(["A", "Aperm", "Acell"]), depth),
+        (["AC", "CA", "A+B"], events(["AC", "CA", "A+B"], model_names=("sqlite",), sql_names=("s1",)), depth + 1),
+    ]
+    seen_total = 0
     transitions = 0
-    for d in range(depth):
-        cand = [h + [e] for h in frontier for e in evs]
-        transitions += len(cand)
-        nxt = []
-        res_models = []
-        for p in core.pmap(hist_work, [(c, dm_names) for c in core.chunks(cand, 400)]):
-            res_models.extend(p.pop("models"))
-            run.merge(p)
-        for h, (mstate, hasget) in zip(cand, res_models):
-            # a mutate/get changes nothing in the model; merge on the model state plus
-            # whether a returned frame is outstanding (a later mutate acts on it)
-            last_get = None
-            for e in reversed(h):
-                if e[0] == "get":
-                    last_get = e
-                    break
-            k = (mstate, last_get, h[-1][0] == "mutate")
-            if k not in seen:
-                seen.add(k)
-                nxt.append(h)
-        frontier = nxt
+    n_events = 0
+    for dm_names, evs, dep in plans:
+        n_events += len(evs)
+        seen = {((), False)}
+        frontier = [[]]
+        for d in range(dep):
+            cand = [h + [e] for h in frontier for e in evs]
+            transitions += len(cand)
+            nxt = []
+            res_models = []
+            for p in core.pmap(hist_work, [(c, dm_names) for c in core.chunks(cand, 400)]):
+                res_models.extend(p.pop("models"))
+                run.merge(p)
+            for h, (mstate, hasget) in zip(cand, res_models):
+                # a mutate/get changes nothing in the model; merge on the model state plus
+                # whether a returned frame is outstanding (a later mutate acts on it)
+                last_get = None
+                for e in reversed(h):
+                    if e[0] == "get":
+                        last_get = e
+                        break
+                k = (mstate, last_get, h[-1][0] == "mutate")
+                if k not in seen:
+                    seen.add(k)
+                    nxt.append(h)
+            frontier = nxt
+        seen_total += len(seen)
     run.set("frame_family", nf)
-    run.set("states", len(seen))
+    run.set("states", seen_total)
     run.set("transitions", transitions)
     run.set("traces_validated_against_impl", run.cov.get("histories", 0))
     run.set("evaluations", run.cov.get("histories", 0) + run.cov.get("pairs", 0))
@@ -243,7 +296,7 @@ def run(tier):
     ]
     return run.finish(
         exhaustive=True,
-        rule=f"(i) all {nf*(nf-1)//2} pairs of the complete family of frames with <= {max_rows} rows, 1-2 columns named x/y in either order, column types int/float/str/bool over 2-3 values each; (ii) all histories of length <= {depth} over {len(evs)} events (store/get x 2 dialects x 2 SQL texts x {len(dm_names)} data maps incl. a row permutation and a one-cell change x 2 results; mutate last returned frame), merged on the model state",
+        rule=f"(iii) all pairs of (dialect, sql, data map) keys over 24 one- and two-table data maps in both dict insertion orders; (i) all {nf*(nf-1)//2} pairs of the complete family of frames with <= {max_rows} rows, 1-2 columns named x/y in either order, column types int/float/str/bool over 2-3 values each; (ii) all histories of length <= {depth} over 37 events (store/get x 2 dialects x 2 SQL texts x 3 one-table data maps incl. a row permutation and a one-cell change x 2 results; mutate last returned frame) and all histories of length <= {depth + 1} over 10 events on three two-table data maps (the same two frames bound both ways round, built in both insertion orders), merged on the model state",
     )
 
 
